@@ -76,7 +76,84 @@ func genCase(t *rapid.T) Case {
 	var c Case
 	var docIsSeq bool
 	var e string
-	if rapid.IntRange(0, 9).Draw(t, "dockind") < 6 {
+	if dk := rapid.IntRange(0, 11).Draw(t, "dockind"); dk >= 10 {
+		// anchors, aliases and merge keys: a copy of a node still points at the anchored nodes of the document
+		d := gen.MergeDoc(t)
+		// two more maps over the same keys: l holds aliases (and perhaps a merge key), r plain values and small maps,
+		// so that a merge / sum / comparison of the two meets an alias on the left where the right has something to add
+		var anchored, anchoredMaps []*gen.YN
+		d.Root.Walk(func(n *gen.YN) {
+			if n.Anchor != "" {
+				anchored = append(anchored, n)
+				if n.K == gen.YMap {
+					anchoredMaps = append(anchoredMaps, n)
+				}
+			}
+		})
+		l, r := &gen.YN{K: gen.YMap, Flow: rapid.Bool().Draw(t, "lflow")}, &gen.YN{K: gen.YMap, Flow: true}
+		for _, k := range []string{"a", "b", "c"} {
+			if rapid.IntRange(0, 3).Draw(t, "lhas") != 0 {
+				var v *gen.YN
+				if len(anchored) > 0 && rapid.IntRange(0, 2).Draw(t, "lalias") != 0 {
+					tg := rapid.SampledFrom(anchored).Draw(t, "ltg")
+					v = &gen.YN{K: gen.YAlias, Target: tg, TName: tg.Anchor}
+				} else {
+					v = &gen.YN{K: gen.YScalar, T: "int", S: "7"}
+				}
+				l.Keys = append(l.Keys, &gen.YN{K: gen.YScalar, T: "str", S: k})
+				l.Vals = append(l.Vals, v)
+			}
+			if rapid.IntRange(0, 3).Draw(t, "rhas") != 0 {
+				var v *gen.YN
+				switch rapid.IntRange(0, 2).Draw(t, "rk") {
+				case 0:
+					v = &gen.YN{K: gen.YScalar, T: "int", S: "9"}
+				case 1:
+					v = &gen.YN{K: gen.YSeq, Flow: true, Elem: []*gen.YN{{K: gen.YScalar, T: "int", S: "5"}}}
+				default:
+					v = &gen.YN{K: gen.YMap, Flow: true, Keys: []*gen.YN{{K: gen.YScalar, T: "str", S: rapid.SampledFrom([]string{"a", "b", "zz", "nn"}).Draw(t, "rkk")}}, Vals: []*gen.YN{{K: gen.YScalar, T: "int", S: "2"}}}
+				}
+				r.Keys = append(r.Keys, &gen.YN{K: gen.YScalar, T: "str", S: k})
+				r.Vals = append(r.Vals, v)
+			}
+		}
+		if len(anchoredMaps) > 0 && rapid.IntRange(0, 2).Draw(t, "lmerge") == 0 {
+			tg := rapid.SampledFrom(anchoredMaps).Draw(t, "lmtg")
+			l.Keys = append(l.Keys, &gen.YN{K: gen.YScalar, T: "str", S: "<<", Merge: true})
+			l.Vals = append(l.Vals, &gen.YN{K: gen.YAlias, Target: tg, TName: tg.Anchor})
+		}
+		if l.Len() == 0 {
+			l.Flow = true
+		}
+		d.Root.Keys = append(d.Root.Keys, &gen.YN{K: gen.YScalar, T: "str", S: "l"}, &gen.YN{K: gen.YScalar, T: "str", S: "r"})
+		d.Root.Vals = append(d.Root.Vals, l, r)
+		c.Doc, c.In = gen.Text([]*gen.YDoc{d}), "yaml"
+		var paths []string
+		for i, k := range d.Root.Keys {
+			paths = append(paths, "."+k.S)
+			if v := d.Root.Vals[i]; v.K == gen.YMap {
+				for _, kk := range v.Keys {
+					if !kk.Merge {
+						paths = append(paths, "."+k.S+"."+kk.S)
+					}
+				}
+			}
+		}
+		p1 := rapid.SampledFrom(paths).Draw(t, "p1")
+		p2 := rapid.SampledFrom(paths).Draw(t, "p2")
+		if rapid.Bool().Draw(t, "lr") {
+			p1, p2 = ".l", ".r"
+			if rapid.IntRange(0, 3).Draw(t, "swaplr") == 0 {
+				p1, p2 = ".r", ".l"
+			}
+		}
+		if rapid.Bool().Draw(t, "binary") {
+			e = "(" + p1 + " " + rapid.SampledFrom([]string{"*", "*n", "*d", "*+", "*?", "*nd", "*?+", "+", "//", "==", "!=", "<", "-", "*c"}).Draw(t, "aop") + " " + p2 + ")"
+		} else {
+			e = "(" + p1 + " | " + rapid.SampledFrom([]string{"@json", "to_json", "to_yaml", "@yaml", "to_props", "to_xml", "keys", "to_entries", "with_entries(.)", "[..]", "pick([\"a\"])", "omit([\"a\"])", "unique", "unique_by(.)", "group_by(.a)", "sort_by(.a)", "flatten", "reverse", "any", "contains({\"a\": 1})", "has(\"a\")", "length", "map(.)", "sort", "[.[]]", "{\"k\": .}", ".[] as $v | $v", "tojson"[:0] + "to_json(0)", "@base64", "select(.a)", "to_entries | from_entries", ".a // .b", "[.a, .b] | flatten"}).Draw(t, "afn") + ")"
+		}
+		c.Gen = "alias_doc"
+	} else if dk < 6 {
 		doc := gen.JSONDoc(t, gen.DocOpts{Depth: 3, Width: 4})
 		c.Doc, c.In = doc.JSON(), "json"
 		docIsSeq = doc.K == 5 // model.Seq
